@@ -64,6 +64,16 @@ Definition run_h2 (n v : str) : sexp :=
     end
   else SL [SN 0; s_str (ascii_lower n)].
 
+(* str.upper() as RequestMethods.request applies it to the method: ASCII letters, and the ten non-ASCII code points whose upper-case
+   form is pure ASCII (the harness checks this table against the running interpreter); any other non-ASCII code point stays non-ASCII *)
+Definition py_upper_cp (c : N) : str :=
+  match c with
+  | 223 => [83; 83] | 305 => [73] | 383 => [83]
+  | 64256 => [70; 70] | 64257 => [70; 73] | 64258 => [70; 76] | 64259 => [70; 70; 73] | 64260 => [70; 70; 76] | 64261 => [83; 84] | 64262 => [83; 84]
+  | _ => [upper_cp c]
+  end.
+Definition py_upper (s : str) : str := flat_map py_upper_cp s.
+
 (* case: (level method url headers ua) *)
 Definition run (c : sexp) : sexp :=
   match c with
@@ -82,7 +92,7 @@ Definition run (c : sexp) : sexp :=
               match parse_url (fun _ => None) (str_of_string "http://h.example" ++ u) with
               | Some pu =>
                   match encode_target (request_uri pu) with
-                  | Some t => s_result (request_head NBM HOSTV ua (ascii_upper m) t hs)
+                  | Some t => s_result (request_head NBM HOSTV ua (py_upper m) t hs)
                   | None => SL [SN 1; SN 4]
                   end
               | None => SL [SN 1; SN 4]
